@@ -37,7 +37,7 @@ def _prep(g, history):
     if history == "edges":
         g.edge_node_connectivity
     elif history == "all":
-        g.face_edge_connectivity, g.edge_face_connectivity, g.node_face_connectivity, g.face_lon, g.n_nodes_per_face
+        g.face_edge_connectivity, g.edge_face_connectivity, g.node_face_connectivity, g.face_lon, g.n_nodes_per_face, g.hole_edge_indices
 
 
 def _zr(v):
@@ -114,6 +114,20 @@ def make_isel(oid, dim, k, history, tiers=("quick", "thorough"), cost=2):
             msg = f"deriving edges on the subset raised {type(ex).__name__}: {ex}"
         ctx.prove("the subset is a fully functional grid: its derived edge tables are those of its own faces", msg is None, note=msg,
                   regions={"subset_inherits_stale_inverse_indices": True})
+        if msg is None:
+            try:
+                holes = sorted(int(x) for x in symnp.to_numpy(symnp.asarray(sub.hole_edge_indices.values if hasattr(sub.hole_edge_indices, "values") else sub.hole_edge_indices)).ravel())
+                fe_np = symnp.to_numpy(fe)
+                cnt = {}
+                for r in fe_np:
+                    for e_ in r:
+                        if int(e_) != F:
+                            cnt[int(e_)] = cnt.get(int(e_), 0) + 1
+                want = sorted(e_ for e_, c_ in cnt.items() if c_ == 1)
+                hmsg = None if holes == want else f"hole_edge_indices {holes}, edges of the subset with a single face: {want}"
+            except Exception as ex:      # noqa: BLE001
+                hmsg = f"hole_edge_indices on the subset raised {type(ex).__name__}: {ex}"
+            ctx.prove("... and its boundary edges (hole_edge_indices) are its own edges with a single face", hmsg is None, note=hmsg)
         # data sliced with the grid stays on the same physical faces
         U = world().get("uxarray.core.dataarray", "UxDataArray")
         da = U(C.sarr_1d(data, symnp.float64), dims=["n_face"], uxgrid=g, name="v")
@@ -146,6 +160,11 @@ def make_isel(oid, dim, k, history, tiers=("quick", "thorough"), cost=2):
             msg = f"deriving face_edge_connectivity on the subset raised {type(ex).__name__}: {ex}"
         if msg:
             return f"isel({dim}={sel}) after history '{history}': the subset is not a functional grid: {msg}"
+        holes = sorted(int(x) for x in np.asarray(sub.hole_edge_indices).ravel())
+        ef = sub.edge_face_connectivity.values
+        want = [i for i in range(sub.n_edge) if ef[i, 1] == F]
+        if holes != want:
+            return f"isel({dim}={sel}) after history '{history}': hole_edge_indices of the subset are {holes}, its edges with a single face are {want}"
         data = np.array(v["data"], dtype=float)
         out = ux.UxDataArray(data, dims=["n_face"], uxgrid=g, name="v").isel(**{dim: sel})
         if not np.allclose(np.atleast_1d(out.values), data[faces]):
